@@ -165,13 +165,19 @@ def cmd_run(pid, tier, keep=False):
     with cf.ThreadPoolExecutor(NCPU) as ex:
         results = list(ex.map(lambda u: build_unit(u, bdir), units))
     failed = [(u, log) for u, (ok, log) in zip(units, results) if not ok]
+    infra = []
     if failed:
         for u, log in failed[:1]:
             print('BUILD-FAILED unit=%s config=%s\n%s' % (u['name'], config_str(u), log))
-        print('INFRA-ERROR property=%s: %d harness unit(s) failed to build against %s' % (pid, len(failed), REPO))
-        if not keep:
-            shutil.rmtree(bdir, ignore_errors=True)
-        return 2
+        print('INFRA-ERROR property=%s: %d of %d harness unit(s) failed to build against %s' % (pid, len(failed), len(units), REPO))
+        infra += ['unit %s failed to build' % u['name'] for u, _ in failed]
+        # a unit that does not build decides nothing; the units that do build are still run, so that a change
+        # which breaks one instantiation family cannot hide violations attributable in the others
+        units = [u for u, (ok, _) in zip(units, results) if ok]
+        if not units:
+            if not keep:
+                shutil.rmtree(bdir, ignore_errors=True)
+            return 2
     t_built = time.time()
 
     # ---- run
@@ -187,7 +193,6 @@ def cmd_run(pid, tier, keep=False):
         left = deadline_s - (time.time() - t_start)
         return t, run_shard(u, i, n, out, left)
 
-    infra = []
     recs = []
     with cf.ThreadPoolExecutor(NCPU) as ex:
         for t, (rc, err, wall) in ex.map(job, tasks):
@@ -197,12 +202,12 @@ def cmd_run(pid, tier, keep=False):
                 continue
             with open(out) as fh:
                 recs.append((u, json.load(fh)))
-    if infra:
-        for m in infra[:5]:
-            print('INFRA-ERROR property=%s %s' % (pid, m))
-        if not keep:
-            shutil.rmtree(bdir, ignore_errors=True)
-        return 2
+    # A worker that died (or faulted outside a guarded case) cannot be attributed to a state, so it is
+    # never a verdict by itself; but it must not hide violations that other workers did attribute:
+    # aggregation continues with the records that exist, and the infrastructure error decides the exit
+    # code (2) only if no violation is reported.
+    for m in infra[:5]:
+        print('INFRA-ERROR property=%s %s' % (pid, m))
 
     # ---- aggregate
     tot = dict(evals=0, nontrivial=0, skipped=0, transitions=0, validated=0)
@@ -298,7 +303,7 @@ def cmd_run(pid, tier, keep=False):
     n_full = sum(1 for m in programs.values() if m['full'])
     vacuous = len(outcomes) < 2
     wall = time.time() - t_start
-    exhaustive = (not deadline_hit) and not skipped_programs
+    exhaustive = (not deadline_hit) and not skipped_programs and not infra
     coverage = dict(
         states=tot['evals'] + tot['skipped'],
         transitions=tot['transitions'],
@@ -320,6 +325,7 @@ def cmd_run(pid, tier, keep=False):
         exhaustive=exhaustive,
         exhaustive_over=plan.get('exhaustive_over', 'stated bound: full types for narrow programs, stated lattices for wide ones'),
         deadline_hit=deadline_hit,
+        worker_failures=infra[:10],
         programs_not_started=sorted(skipped_programs)[:50],
         build_s=round(t_built - t_start, 1),
         violation_cases=n_viol_cases,
@@ -342,6 +348,9 @@ def cmd_run(pid, tier, keep=False):
         len(outcomes), len(coverage['configs']), t_built - t_start, wall, exhaustive, ' VACUOUS(one outcome class)' if vacuous else ''))
     if not keep:
         shutil.rmtree(bdir, ignore_errors=True)
+    if infra and not viol_lines:
+        print('INFRA-ERROR property=%s: %d worker(s) failed and no violation was attributed; this run decides nothing' % (pid, len(infra)))
+        return 2
     if nondeterministic and not viol_lines:
         for r in nondeterministic[:5]:
             print('INFRA-ERROR property=%s observation did not reproduce on replay: %s %s %s' % (pid, r['program'], r['key'], r['case']))
